@@ -202,7 +202,7 @@ def run(prog: Program, rep: Report, tier: str):
     rep.rule("G8.label-one-hot", "on every normal return the label component was produced by to_one_hot_vector(<label loaded with "
              "idx>, n_classes=self.getdim_class()) (then possibly mixed in place): the untouched-sample path returns a one-hot "
              "label too")
-    rets = [(n, cfg.nodes[n].ast.value) for n, _ in fa.returns()]
+    rets = [(n, fa.ret_ast(n)[0]) for n, _ in fa.returns()]
     for n, rv in rets:
         ok = None
         if isinstance(rv, ast.Tuple) and len(rv.elts) == 2 and isinstance(rv.elts[1], ast.Name):
